@@ -10,6 +10,16 @@ exist independently of any text.  For every writer route of xtuml/persist.py
     pparts    persist_schema / persist_instances / persist_unique_identifiers to three files, load_metamodel([...])
     dispatch  xtuml.serialize(metamodel) and the per-resource dispatch serialize(class|association|instance)
     inferred  the INSERT statements only (no CREATE TABLE): attribute types are guessed from the values
+    extra     two of seven further load routes per case (all seven for the fixed families): file object, single file name, the
+              database text through a file, the database file through input(), the three files / parts with a missing
+              last newline or a last `--` comment without newline, two builds from one loader with the first metamodel
+              changed in between
+    boundary  five fixed models: 255 / 256 / 257 rows with strings of 254..257 characters, integers at the 8 / 31 / 53 / 63 /
+              64-bit boundaries and 128-bit ids; classes with 255 / 256 attributes
+    twins     two fixed models with two of everything: identifiers of one name on two classes and over one attribute,
+              two associations between one pair of classes, two reflexive associations, phrases differing in a letter
+    nonfinite OBSERVATION only: a REAL attribute holding inf / -inf / nan is outside the persistable domain (the format has no
+              numeral for it: the writers emit the bare word, the loader raises ParsingException); counted, not demanded
     unset-relink  twelve fixed models of the OPEN FINDING `unset-referential-relinks` (an unrelated referrer with an unset
               INTEGER / REAL / BOOLEAN referential attribute, an instance of the referred class carrying the type default
               as identifying value); D reports exactly that difference under the finding's signature, any other link
@@ -128,6 +138,52 @@ def _unset_relink_specs():
             yield {'classes': [b, a], 'assocs': assocs, 'rows': rows, 'links': links, 'int_rel_ids': False}
 
 
+def _boundary_specs():
+    """counts and sizes at the 8-bit boundary, integers at the 31 / 53 / 63 / 64-bit boundaries (robustness pattern 6)"""
+    ints = [255, 256, 2 ** 31 - 1, 2 ** 31, 2 ** 53 - 1, 2 ** 53, 2 ** 53 + 1, -(2 ** 53) - 1, 2 ** 63 - 1, 2 ** 63, -(2 ** 63) - 1,
+            2 ** 64 - 1, 2 ** 64, 2 ** 64 + 1]
+    for nrows in (255, 256, 257):
+        a = {'kind': 'A', 'attrs': [['Id', 'INTEGER'], ['S', 'STRING'], ['N', 'INTEGER'], ['U', 'UNIQUE_ID']],
+             'idents': [['I1', ['Id']]], 'roles': ['key', 'plain', 'plain', 'plain']}
+        rows = [{'ci': 0, 'vals': [i + 1, 'x' * (254 + i % 4), ints[i % len(ints)], (2 ** 128 - 1 - i) if i % 2 else 255 + i]}
+                for i in range(nrows)]
+        yield {'classes': [a], 'assocs': [], 'rows': rows, 'links': [], 'int_rel_ids': False}
+    for nattrs in (255, 256):
+        w = {'kind': 'Wide', 'attrs': [['a%d' % k, 'INTEGER'] for k in range(nattrs)], 'idents': [['I1', ['a0', 'a%d' % (nattrs - 1)]]],
+             'roles': ['plain'] * nattrs}
+        yield {'classes': [w], 'assocs': [], 'rows': [{'ci': 0, 'vals': list(range(nattrs))}, {'ci': 0, 'vals': [None] * nattrs}],
+               'links': [], 'int_rel_ids': False}
+
+
+def _twins_specs():
+    """TWO OF A KIND (robustness pattern 7): the same identifier name on two classes and twice over the same attribute, two
+    associations between the same pair of classes, two reflexive associations on one class, phrases that differ in one letter"""
+    for variant in range(2):
+        p = {'kind': 'P', 'attrs': [['Id', 'INTEGER'], ['Code', 'STRING'], ['Prev_Id', 'INTEGER'], ['Up_Id', 'INTEGER']],
+             'idents': [['I1', ['Id']], ['I2', ['Id', 'Code']], ['I3', ['Id']]], 'roles': ['key', 'plain', 'ref', 'ref']}
+        q = {'kind': 'Q', 'attrs': [['Id', 'INTEGER'], ['P_Id', 'INTEGER'], ['P2_Id', 'INTEGER'], ['Code', 'STRING']],
+             'idents': [['I1', ['Id']], ['I2', ['Code']]], 'roles': ['key', 'ref', 'ref', 'plain']}
+
+        def end(ci, keys, many, cond, phrase):
+            return {'ci': ci, 'keys': keys, 'many': many, 'cond': cond, 'phrase': phrase}
+        assocs = [{'rel': 1, 'src': end(1, ['P_Id'], True, True, ''), 'tgt': end(0, ['Id'], False, True, '')},
+                  {'rel': 2, 'src': end(1, ['P2_Id'], True, True, ''), 'tgt': end(0, ['Id'], False, True, '')},
+                  {'rel': 3, 'src': end(0, ['Prev_Id'], False, True, 'precedes'), 'tgt': end(0, ['Id'], False, True, 'succeeds')},
+                  {'rel': 4, 'src': end(0, ['Up_Id'], True, True, 'precedes' if variant else 'is below'),
+                   'tgt': end(0, ['Id'], False, True, 'preceded' if variant else 'is above')}]
+        rows = [{'ci': 0, 'vals': [1, 'a', None, None]}, {'ci': 0, 'vals': [2, 'a', None, None]}, {'ci': 0, 'vals': [3, 'b', None, None]},
+                {'ci': 1, 'vals': [1, None, None, 'a']}, {'ci': 1, 'vals': [2, None, None, 'b']}]
+        links = [{'assoc': 0, 'src': 3, 'tgt': 0}, {'assoc': 1, 'src': 3, 'tgt': 1}, {'assoc': 0, 'src': 4, 'tgt': 1},
+                 {'assoc': 2, 'src': 1, 'tgt': 0}, {'assoc': 2, 'src': 2, 'tgt': 1}, {'assoc': 3, 'src': 1, 'tgt': 0},
+                 {'assoc': 3, 'src': 2, 'tgt': 0}]
+        if variant:
+            links = links[:3] + [{'assoc': 3, 'src': 0, 'tgt': 2}, {'assoc': 2, 'src': 2, 'tgt': 0}]
+        yield {'classes': [p, q], 'assocs': assocs, 'rows': rows, 'links': links, 'int_rel_ids': bool(variant)}
+
+
+NONFINITE = [float('inf'), float('-inf'), float('nan')]
+
+
 def _mk_case(spec, rng, tag, regen=False):
     perm = [0, 1, 2]
     rng.shuffle(perm)
@@ -147,6 +203,12 @@ def generate(ctx):
         yield _mk_case(spec, rng, 'sweep')
     for spec in _unset_relink_specs():
         yield _mk_case(spec, rng, 'unset-relink')
+    for spec in _boundary_specs():
+        yield _mk_case(spec, rng, 'boundary')
+    for spec in _twins_specs():
+        yield _mk_case(spec, rng, 'twins', regen=True)
+    for k in range(3):
+        yield {'tag': 'nonfinite', 'nonfinite': k, 'perm': [0, 1, 2], 'perm2': [0, 1, 2]}
     n = ctx.pick(650, 9000)
     for i in range(n):
         r = ctx.rng.fork('model', i)
@@ -241,7 +303,7 @@ def _read(path):
 
 
 def _case_key(case):
-    return hashlib.sha1(json.dumps(case['spec'], sort_keys=True, default=repr).encode()).hexdigest()[:16]
+    return hashlib.sha1(json.dumps(case.get('spec', case.get('nonfinite')), sort_keys=True, default=repr).encode()).hexdigest()[:16]
 
 
 def _no_boolean(mc):
@@ -372,7 +434,40 @@ def _file_load(x, path):
     return l.build_metamodel()
 
 
+def _run_nonfinite(case):
+    """OBSERVATION, not a demand: a REAL attribute holding inf / -inf / nan is OUTSIDE the persistable domain (the file format
+    has no numeral for it): every writer emits the bare word `inf` / `-inf` / `nan`, and the loader raises the documented
+    ParsingException for it.  Counted in the stats, no D failure."""
+    x = _x
+    v = NONFINITE[case['nonfinite']]
+    stats = {'tag_nonfinite': 1}
+    m = x.MetaModel(x.IntegerGenerator())
+    m.define_class('A', [('Id', 'INTEGER'), ('r', 'REAL')])
+    m.new('A', Id=1, r=1.5)
+    m.new('A', Id=2, r=v)
+    work = tempfile.mkdtemp(prefix='n-', dir=_tmpdir)
+    p = os.path.join(work, 'db.sql')
+    routes = [('db', lambda: _reload_text([x.serialize_database(m)])),
+              ('parts', lambda: _reload_text([x.serialize_schema(m), x.serialize_instances(m)])),
+              ('pdb', lambda: (x.persist_database(m, p), _file_load(x, p))[1]),
+              ('dispatch', lambda: _reload_text([x.serialize(m)]))]
+    for name, load in routes:
+        try:
+            load()
+            stats['nonfinite_reloads'] = stats.get('nonfinite_reloads', 0) + 1
+        except x.ParsingException:
+            stats['nonfinite_rejected_with_parsing_exception'] = stats.get('nonfinite_rejected_with_parsing_exception', 0) + 1
+        except Exception as e:
+            stats['nonfinite_other_' + type(e).__name__] = 1
+    for f in os.listdir(work):
+        os.unlink(os.path.join(work, f))
+    os.rmdir(work)
+    return {'obs': 'nonfinite', 'd_fail': [], 'nontrivial': False, 'key': 'nonfinite/%d' % case['nonfinite'], 'stats': stats}
+
+
 def run_impl(case):
+    if case['tag'] == 'nonfinite':
+        return _run_nonfinite(case)
     x = _x
     spec = case['spec']
     fails = []
@@ -433,6 +528,63 @@ def run_impl(case):
         # sorted order of the writers), so only the reload is compared for it, not the fixed point
         ('dispatch-pieces', ld_texts([pieces]), 'skip'),
     ]
+    # ROUTE x ROUTE (robustness patterns 1, 3, 4): every text through the file loaders and every file through input();
+    # file objects; a single file name; files whose last line lacks the newline or is a `--` comment without newline
+    # (each file has its own lexer, so neither may leak into the next file); two builds from one loader with the first
+    # metamodel changed in between
+    def ld_fileobj():
+        l = x.ModelLoader()
+        with open(p_db, 'r', newline='') as f:
+            l.file_input(f)
+        return l.build_metamodel()
+
+    def ld_text_via_file():
+        pt = os.path.join(work, 'text.sql')
+        with open(pt, 'w', newline='') as f:
+            f.write(t_db)
+        return x.load_metamodel(pt)
+
+    def ld_ragged_files():
+        out = []
+        for k, src in enumerate(files):
+            t = _read(src)
+            t = t.rstrip('\n') if k % 2 == 0 else t + '-- the last line is a comment without a newline'
+            pk = os.path.join(work, 'ragged%d.sql' % k)
+            with open(pk, 'w', newline='') as f:
+                f.write(t)
+            out.append(pk)
+        return x.load_metamodel([out[i] for i in case['perm2']])
+
+    def ld_ragged_calls():
+        l = x.ModelLoader()
+        for k in case['perm2']:
+            l.input(parts[k].rstrip('\n') + ('' if k == 1 else ' -- c'))
+        return l.build_metamodel()
+
+    def ld_twice():
+        l = x.ModelLoader()
+        l.input(t_db)
+        before = [_stmt_dump(st) for st in l.statements]
+        ma = l.build_metamodel()
+        for mc in ma.metaclasses.values():
+            for inst in mc.storage[:3]:
+                for nm, ty in mc.attributes:
+                    if nm in mc.referential_attributes or nm in mc.identifying_attributes:
+                        continue
+                    setattr(inst, nm, {'STRING': 'changed', 'INTEGER': 12345, 'REAL': 0.25, 'BOOLEAN': True, 'UNIQUE_ID': 77}.get(ty.upper()))
+        mb = l.build_metamodel()
+        if [_stmt_dump(st) for st in l.statements] != before:
+            fail('build-changed-statements', 'building a metamodel and changing its instances changed loader.statements')
+        return mb
+
+    extras = [('pdb-fileobj', ld_fileobj, 'skip'), ('db-text-via-file', ld_text_via_file, 'skip'),
+              ('pdb-file-via-input', ld_texts([f_db]), 'skip'), ('pparts-ragged-files', ld_ragged_files, 'skip'),
+              ('parts-ragged-calls', ld_ragged_calls, 'skip'), ('db-built-twice', ld_twice, 'skip'),
+              ('pdb-single-name', lambda: x.load_metamodel(p_db), 'skip')]
+    sel = (case['perm'][0] + 3 * case['perm2'][0]) % len(extras)
+    routes += [extras[sel], extras[(sel + 3) % len(extras)]]
+    if case['tag'] != 'random':
+        routes += [e for e in extras if e not in routes]
     for name, load, writer in routes:
         try:
             m2 = load()
@@ -556,6 +708,8 @@ def mm_sexp(m):
 
 
 def model_line(case):
+    if case['tag'] == 'nonfinite':
+        return None                 # inf / nan are no six-decimal numerals: outside the model and outside the domain
     built = gen_schema.build(_x, case['spec'])
     m = built.m
     parts = [_x.serialize_schema(m), _x.serialize_instances(m), _x.serialize_unique_identifiers(m)]
@@ -572,6 +726,8 @@ def _all_links(spec):
 
 
 def shrink_candidates(case):
+    if 'spec' not in case:
+        return
     spec = case['spec']
     # drop a link / pre-link, a row without links, an association without links, an identifier, a plain attribute value
     for key in ('links', 'prelinks'):
